@@ -540,7 +540,7 @@ def read_Fourquark_hd5(path, filestem, ens_id, idl=None, vertices=["VA", "AV"]):
 
     intermediate_dict = {}
 
-    for vertex in vertices:
+    for vertex in dict.fromkeys(vertices):
         lorentz_names = _get_lorentz_names(vertex)
         for v_name in lorentz_names:
             if v_name in [('SigmaXY', 'SigmaZT'),
